@@ -417,6 +417,19 @@ def default_move_spec():
                     int_constants={"n0": 0, "n1": 1, "n2": 2, "fh": 7})
 
 
+def second_move_spec():
+    """same names and shapes as default_move_spec, other coordinates and constants: anything remembered from a compilation or
+    run under the first spec is wrong under this one"""
+    from bloqade.geometry.dialects.grid import Grid
+    from bloqade.shuttle.arch import ArchSpec, Layout
+    A = Grid.from_positions([100.0, 104.0, 110.0], [-50.0, -45.0])
+    B = Grid.from_positions([0.0, 1.0], [-1.0, 1.0])
+    S = Grid.from_positions([5.0, 9.0], [0.5])
+    layout = Layout({"A": A, "B": B}, {"A"}, {"A", "B"}, {"A"}, special_grid={"S": S})
+    return ArchSpec(layout=layout, float_constants={"f0": 1.0, "fh": 1.5, "f3": 5.0, "n2": 0.5},
+                    int_constants={"n0": 1, "n1": 2, "n2": 3, "fh": 4})
+
+
 ZONE_SHAPES = {"A": (3, 2), "B": (2, 2), "S": (2, 1)}
 KNOWN = {"trap": ["A", "B"], "special": ["S"], "intC": ["n0", "n1", "n2"], "floatC": ["f0", "fh", "f3"]}
 
@@ -439,7 +452,8 @@ class MoveGen:
                      "measure": True, "assert": 0.02, "cz_positional": 0.0, "args_dependent": 0.7,
                      "dynamic_call": 0.0, "dead_effect": 0.0, "wrong_kind": 0.0, "alias_subs": 0.0,
                      "devfn_param": 0.0, "loop_return": 0.0, "twin_devs": 0.0,
-                     "look_kinds": ("trap", "special", "intC", "floatC")}
+                     "look_kinds": ("trap", "special", "intC", "floatC"), "kernel_lookup": 0.0,
+                     "grid_literals": 0.0}
         if feat:
             self.feat.update(feat)
         self.counter = 0
@@ -505,6 +519,11 @@ class MoveGen:
 
     def grid_e(self, env, depth=1):
         r = self.rng.random()
+        if self.rng.random() < self.feat["grid_literals"]:
+            # a grid that does not come from the spec
+            xs = sorted(self.rng.sample(range(-4, 12), self.rng.randrange(1, 3)))
+            ys = sorted(self.rng.sample(range(-4, 12), self.rng.randrange(1, 3)))
+            return P("from_positions", P("list", *[L(Fraction(x)) for x in xs]), P("list", *[L(Fraction(y, 2)) for y in ys]))
         if env["grid"] and r < 0.45:
             return ("var", self.rng.choice(env["grid"]))
         if self.feat["lookups"] and r < 0.85 or not env["grid"]:
@@ -627,6 +646,9 @@ class MoveGen:
         if pick:
             body.append(("eff", "turn_on", [L(("sl", None, None, None)), L(("sl", None, None, None))]))
         body.append(("eff", "move", [P("shift", ("var", "g"), P("mul", L(dx), ("var", "n")), L(Fraction(self.rng.randrange(0, 3), 2)))]))
+        if self.rng.random() < self.feat["kernel_lookup"]:
+            # the traced kernel reads the spec itself (as the Gemini kernels do)
+            body.append(("eff", "move", [P("shift", ("var", "g"), ("look", "floatC", self.rng.choice(["f3", "fh"])), L(Fraction(1, 2)))]))
         if self.rng.random() < 0.5:
             body.append(("for", "i", L(0), ("var", "n"), L(1),
                          [("eff", "move", [P("shift", ("var", "g"), P("mul", L(Fraction(1, 2)), ("var", "i")), L(Fraction(1)))])]))
